@@ -603,6 +603,9 @@ func TestVerif(t *testing.T) {
 		}
 	}
 
+	// Group E: end to end through dns.ExtResolver, the DANE policy and a real remote target.
+	e2eGroup(t, r, w)
+
 	// Group C: PRNG-sampled multisets of 2-4 records, each against every state.
 	// Half of the draws are biased towards records with usable parameters so
 	// that interactions (unusable next to mismatching usable, EE next to TA,
